@@ -103,7 +103,7 @@ def _find_body_start(src, i):
         if c == '(':
             depth += 1
         elif c == ')':
-            depth -= 1
+            depth = max(0, depth - 1)       # the selector may end inside the parameter list
         elif depth == 0 and c == ';':
             return -1
         elif depth == 0 and c == '{':
@@ -244,6 +244,7 @@ class Entry:
         self.label = re.sub(r'[^A-Za-z0-9_.-]', '_', self.label)
         self.kf_defines = kf_defines
         self.object_bits = object_bits
+        self.nloops = 1
 
 
 class Unit:
